@@ -168,6 +168,19 @@ Section Folds.
     ix_elem_of_u32 := fun c => c <? 256; ix_fold := as_fold |}.
 End Folds.
 
+(* the positions a search visits from p (stepping right at most [fuel] times) all lie within the haystack:
+   true of valid UTF-8 from a character boundary, and of any byte sequence in ASCII mode; a boolean the
+   driver evaluates on every haystack and start *)
+Fixpoint walk_ok (ix : indexer) (h : hay) (fuel : nat) (p : nat) : bool :=
+  match fuel with
+  | O => true
+  | S f => (p <=? length h)%nat &&
+           match ix_next_right_pos ix h p with
+           | Ok (Some p') => walk_ok ix h f p'
+           | _ => true
+           end
+  end.
+
 Section Cursor.
   Variable ix : indexer.
   (* cursor::next *)
